@@ -261,6 +261,160 @@ def _w_runs(task):
 
 
 # ---------------------------------------------------------------------------
+# (a2) codecs on codes that are not in canonical form (zero-length runs, unmerged runs)
+# ---------------------------------------------------------------------------
+
+SPLIT_LENGTHS = [0, 1, 2, 254, 255, 256, 510, 511]
+
+
+def check_noncanon(t, kind, code, case):
+    """One run-length code word as the library documents them (zero counts and repeated values
+    are legal: that is how long runs are stored in narrow count dtypes) through every codec function."""
+    R = rl()
+    c = np.array(code, dtype=np.int64)
+    d = decode_brle(code) if kind == "brle" else decode_rle(code)
+    n = len(d)
+
+    def call(name, f, want, cls="zero-length or unmerged runs in the code"):
+        t.evaluations += 1
+        try:
+            got = f()
+        except Exception as e:
+            t.violation(f"runlength.{name}: raises {exc_class(e)} [{cls}]", dict(case, fn=name), {"exc": repr(e)[:200]})
+            return
+        if got != want:
+            t.violation(f"runlength.{name}: result differs from the list oracle [{cls}]", dict(case, fn=name), {"got": got, "want": want})
+
+    L = lambda x: np.asarray(x).tolist()
+    nz = [i for i, x in enumerate(d) if x]
+    if kind == "brle":
+        call("brle_to_dense", lambda: np.asarray(R.brle_to_dense(c)).astype(bool).tolist(), d)
+        call("brle_length", lambda: int(R.brle_length(c)), n)
+        call("brle_reverse", lambda: decode_brle(L(R.brle_reverse(c))), d[::-1])
+        call("brle_logical_not", lambda: decode_brle(L(R.brle_logical_not(c))), [not x for x in d])
+        call("brle_to_rle", lambda: decode_rle(L(R.brle_to_rle(c))), [int(x) for x in d])
+        call("brle_to_brle", lambda: decode_brle(L(R.brle_to_brle(c))), d)
+        call("brle_to_brle(uint8)", lambda: decode_brle(L(R.brle_to_brle(c, dtype=np.uint8))), d)
+        call("merge_brle_lengths", lambda: decode_brle(list(R.merge_brle_lengths(c))), d)
+        call("brle_to_sparse", lambda: L(R.brle_to_sparse(c)), nz)
+        if nz:
+
+            def bs():
+                s, p = R.brle_strip(c)
+                return [decode_brle(L(s)), [int(p[0]), int(p[1])]]
+
+            call("brle_strip", bs, [d[nz[0] : nz[-1] + 1], [nz[0], n - 1 - nz[-1]]])
+    else:
+        call("rle_to_dense", lambda: L(R.rle_to_dense(c)), d)
+        call("rle_length", lambda: int(R.rle_length(c)), n)
+        call("rle_reverse", lambda: decode_rle(L(R.rle_reverse(c))), d[::-1])
+        call("rle_to_rle", lambda: decode_rle(L(R.rle_to_rle(c))), d)
+        call("rle_to_rle(uint8)", lambda: decode_rle(L(R.rle_to_rle(c, dtype=np.uint8))), d)
+        call("merge_rle_lengths", lambda: decode_rle([int(x) for pr in zip(*R.merge_rle_lengths(c[0::2], c[1::2])) for x in pr]), d)
+        if all(v in (0, 1) for v in code[0::2]):
+            call("rle_to_brle", lambda: decode_brle(list(R.rle_to_brle(c))), [bool(x) for x in d])
+            call("rle_to_brle(uint8)", lambda: decode_brle(L(R.rle_to_brle(c, dtype=np.uint8))), [bool(x) for x in d])
+
+        def sp():
+            i, v = R.rle_to_sparse(c)
+            return [L(i), L(v)]
+
+        call("rle_to_sparse", sp, [nz, [x for x in d if x]])
+        if nz:
+
+            def rs():
+                s, p = R.rle_strip(c)
+                return [decode_rle(L(s)), [int(p[0]), int(p[1])]]
+
+            call("rle_strip", rs, [d[nz[0] : nz[-1] + 1], [nz[0], n - 1 - nz[-1]]])
+    if 0 < n <= 5:
+        conv = (lambda x: [bool(v) for v in x]) if kind == "brle" else (lambda x: [int(v) for v in x])
+        gather = R.brle_gather_1d if kind == "brle" else R.rle_gather_1d
+        sgather = R.sorted_brle_gather_1d if kind == "brle" else R.sorted_rle_gather_1d
+        mask = R.brle_mask if kind == "brle" else R.rle_mask
+        for r in (1, 2, 3):
+            for idx in itertools.combinations_with_replacement(range(n), r):
+                want = [d[i] for i in idx]
+                call(f"{kind}_gather_1d", lambda: conv(gather(c, np.array(idx))), want)
+                call(f"sorted_{kind}_gather_1d", lambda: conv(sgather(c, np.array(idx))), want)
+                call(f"sorted_{kind}_gather_1d", lambda: conv(sgather(c, list(idx))), want)
+        for mk in itertools.product((False, True), repeat=n):
+            call(f"{kind}_mask", lambda: conv(mask(c, np.array(mk))), [x for x, b in zip(d, mk) if b])
+
+
+def check_split(t, kind, lens, dt, case):
+    """split_long_* into a narrow count dtype and merge_* back: the sequence never changes."""
+    R = rl()
+    dtype = np.dtype(dt)
+    mx = np.iinfo(dtype).max
+    cls = f"count dtype {dtype.name}, {'a run longer than the dtype maximum' if any(x > mx for x in lens) else 'runs within the dtype range'}"
+    t.evaluations += 1
+    try:
+        if kind == "brle":
+            want = decode_brle(lens)
+            out = np.asarray(R.split_long_brle_lengths(np.array(lens, dtype=np.int64), dtype=dtype))
+            if out.dtype != dtype:
+                t.violation(f"runlength.split_long_brle_lengths: result is not of the requested count dtype [{cls}]", case, {"dtype": str(out.dtype)})
+            if decode_brle(out.tolist()) != want:
+                t.violation(f"runlength.split_long_brle_lengths changes the sequence [{cls}]", case, {"out": out.tolist()[:12]})
+            back = list(R.merge_brle_lengths(out.astype(np.int64)))
+            if decode_brle(back) != want:
+                t.violation(f"runlength.merge_brle_lengths(split_long_brle_lengths) changes the sequence [{cls}]", case, {"back": [int(x) for x in back][:12]})
+            if any(int(x) == 0 for x in back[1:-1]):
+                t.violation(f"runlength.merge_brle_lengths leaves an interior zero-length run [{cls}]", case, {"back": [int(x) for x in back][:12]})
+        else:
+            vals = [(i % 2) + 1 if i % 3 else 0 for i in range(len(lens))]
+            want = [v for v, ln in zip(vals, lens) for _ in range(ln)]
+            ov, ol = R.split_long_rle_lengths(np.array(vals), np.array(lens, dtype=np.int64), dtype=dtype)
+            ov, ol = np.asarray(ov), np.asarray(ol)
+            if ol.dtype != dtype:
+                t.violation(f"runlength.split_long_rle_lengths: counts are not of the requested count dtype [{cls}]", case, {"dtype": str(ol.dtype)})
+            got = [int(v) for v, ln in zip(ov.tolist(), ol.tolist()) for _ in range(int(ln))]
+            if got != want:
+                t.violation(f"runlength.split_long_rle_lengths changes the sequence [{cls}]", case, {"values": ov.tolist()[:8], "lengths": ol.tolist()[:8]})
+            mv, ml = R.merge_rle_lengths(ov, ol.astype(np.int64))
+            got = [int(v) for v, ln in zip(mv, ml) for _ in range(int(ln))]
+            if got != want:
+                t.violation(f"runlength.merge_rle_lengths(split_long_rle_lengths) changes the sequence [{cls}]", case, {})
+    except Exception as e:
+        t.violation(f"runlength.split_long_{kind}_lengths / merge raises {exc_class(e)} [{cls}]", case, {"exc": repr(e)[:200]})
+
+
+def noncanon_codes(kind, tier):
+    if kind == "brle":
+        top = 5 if tier == "quick" else 6
+        for ln in range(1, top + 1):
+            yield from itertools.product((0, 1, 2, 3), repeat=ln)
+    else:
+        top = 3 if tier == "quick" else 4
+        for pairs in range(1, top + 1):
+            yield from itertools.product(*([(0, 1, 2), (0, 1, 2)] * pairs))
+
+
+def _w_noncanon(task):
+    kind, tier, sl, nsl = task
+    t = harness.Tally()
+    for k, code in enumerate(noncanon_codes(kind, tier)):
+        if k % nsl != sl:
+            continue
+        t.nontrivial_count += 1
+        check_noncanon(t, kind, list(code), {"family": "noncanon", "kind": kind, "code": list(code)})
+    return t
+
+
+def _w_split(task):
+    kind, dt = task
+    t = harness.Tally()
+    for ln in (1, 2, 3, 4):
+        for lens in itertools.product(SPLIT_LENGTHS, repeat=ln):
+            if ln == 4 and (lens[0] not in (0, 255) or lens[3] not in (0, 256)):
+                continue
+            t.nontrivial_count += 1
+            check_split(t, kind, list(lens), dt, {"family": "split", "kind": kind, "dtype": dt, "lengths": list(lens)})
+    return t
+
+
+# ---------------------------------------------------------------------------
 # (b) encodings
 # ---------------------------------------------------------------------------
 
@@ -550,6 +704,11 @@ def tasks_for(tier):
     for dt in ("uint8", "int8", "uint16", "int64"):
         for fv in (False, True):
             tasks.append((_w_runs, (dt, fv)))
+    for kind in ("brle", "rle"):
+        for sl in range(NS):
+            tasks.append((_w_noncanon, (kind, tier, sl, NS)))
+        for dt in ("uint8", "int8"):
+            tasks.append((_w_split, (kind, dt)))
     shapes = [(2, 2, 2), (1, 2, 3), (3, 1, 2)] + ([(2, 3, 2)] if tier == "thorough" else [])
     for shp in shapes:
         size = int(np.prod(shp))
@@ -576,6 +735,10 @@ def replay(case):
             check_codec_seq(t, list(case["seq"]), False, {k: case[k] for k in ("family", "kind", "seq")}, [np.int64])
     elif fam == "runs":
         t.merge(_w_runs((case["dtype"], case["first"])))
+    elif fam == "noncanon":
+        check_noncanon(t, case["kind"], list(case["code"]), {k: case[k] for k in ("family", "kind", "code")})
+    elif fam == "split":
+        check_split(t, case["kind"], list(case["lengths"]), case["dtype"], {k: case[k] for k in ("family", "kind", "dtype", "lengths")})
     elif fam == "encoding":
         shape = tuple(case["shape"])
         # re-run the single array at depth 2
@@ -599,7 +762,7 @@ def main(run):
     run.merge(res)
     cov = {
         "exhaustive": True,
-        "rule": "every boolean sequence up to length 8/10 and every {0,1,2} sequence up to length 5/7 through every codec (all index lists up to length 3 for gathers, all masks); run structures of <=3 runs with lengths around 127/255/511 for uint8/int8/uint16/int64 counts; every boolean array of the listed shapes x 4 base encodings x every lazy view (x every second view in thorough) x every read of the Encoding API; VoxelGrid maps, counts, volume, strip, copy, binvox round trip",
+        "rule": "every boolean sequence up to length 8/10 and every {0,1,2} sequence up to length 5/7 through every codec (all index lists up to length 3 for gathers, all masks); run structures of <=3 runs with lengths around 127/255/511 for uint8/int8/uint16/int64 counts; every non-canonical code word (brle counts in {0..3} up to length 5/6, rle (value,count) pairs over {0,1,2}x{0,1,2} up to 3/4 pairs) through every codec function incl. sorted gathers and merge_*; split_long_*/merge_* for every length vector up to 3 (and a slice of 4) over {0,1,2,254,255,256,510,511} in uint8/int8; every boolean array of the listed shapes x 4 base encodings x every lazy view (x every second view in thorough) x every read of the Encoding API; VoxelGrid maps, counts, volume, strip, copy, binvox round trip",
         "tasks": len(tasks),
     }
     return run.finish(cov, assumptions=["oracle: numpy on the dense array, Python lists for codecs", "an exception on a valid read is a violation"], confirm_limit=6)
